@@ -156,8 +156,10 @@ func truncSpec(s Spec, n int) (Spec, bool) {
 	switch s.Obj.Kind {
 	case "quad":
 		t.Obj.A, t.Obj.B = sub(s.Obj.A), cut(s.Obj.B)
-	case "sep":
+	case "sep", "rsq":
 		t.Obj.C, t.Obj.D, t.Obj.E = cut(s.Obj.C), cut(s.Obj.D), cut(s.Obj.E)
+	case "rsys":
+		t.Obj.A, t.Obj.C, t.Obj.D = sub(s.Obj.A), cut(s.Obj.C), cut(s.Obj.D)
 	}
 	t.Lo, t.Hi, t.Hess = cut(s.Lo), cut(s.Hi), sub(s.Hess)
 	return t, true
@@ -250,6 +252,23 @@ func genHuntSpec(r *Rng) Spec {
 	return s
 }
 
+// newton runs for the hunt: pure objectives, mostly no iteration cap so that a nil-error
+// return has to come from the stop test
+func genHuntNewton(r *Rng) Spec {
+	s := genNewtonSpec(r)
+	s.Obj.ErrAfter, s.Obj.NaNAfter, s.Obj.ErrAbove = -1, -1, 0
+	if r.Intn(4) != 0 {
+		s.MaxIt = 1000000
+	}
+	if s.Eps == 0 && r.Bool() {
+		s.Eps = 1e-6
+	}
+	if s.Mode == "Foo" {
+		s.Mode = "None"
+	}
+	return s
+}
+
 type Finding struct {
 	Site    string `json:"site"`
 	Failure string `json:"failure"`
@@ -306,7 +325,11 @@ func hunt(o Opts) {
 	}
 	rng := NewRng(o.Seed ^ 0x5eed)
 	for i := 0; i < o.N; i++ {
-		consider(genHuntSpec(rng.Split()))
+		if i%4 == 3 {
+			consider(genHuntNewton(rng.Split()))
+		} else {
+			consider(genHuntSpec(rng.Split()))
+		}
 	}
 	out := struct {
 		Found    bool       `json:"found"`
